@@ -79,10 +79,13 @@ def r1(ctx):
         if k not in res or (res[k][0] and not ok):
             res[k] = (ok, msg)
     ncase = 0
+    wide = ctx.tier == "thorough"
+    nums = list(range(0, 255)) if wide else NUMS
+    wide_lvts = sorted(set(LVTS + list(range(0, 300)) + [65534, 65537, 2 ** 24 - 1, 2 ** 24, 2 ** 31, 2 ** 32 - 1]))
     for cls in (APP, CTX, OPEN, CLOSE):
         cname = ["application", "context", "opening", "closing"][cls]
-        for num in NUMS:
-            for lvt in (LVTS if cls in (APP, CTX) else [0]):
+        for num in nums:
+            for lvt in ((wide_lvts if wide and num in NUMS else LVTS) if cls in (APP, CTX) else [0]):
                 ncase += 1
                 want = ref_tag(cls, num, lvt, lvt)
                 env = {"self.tagClass": cls, "self.tagNumber": num, "self.tagLVT": lvt, "self.tagData": b""}
